@@ -13,8 +13,10 @@ func glyphOpWF(c GlyphOp) bool {
 		return len(c.Args) == 2
 	case OpCurveTo:
 		return len(c.Args) == 6
+	case OpClosePath:
+		return true
 	}
-	return true
+	return false
 }
 
 // glyphPtrWF: glyph tables never hold nil glyphs.
@@ -26,11 +28,12 @@ func peekReaderWF(r *peekReader) bool {
 	return r.r != nil
 }
 
-//@ valueinv GlyphOp glyphOpWF zero-safe
+//@ valueinv GlyphOp glyphOpWF
 //@ valueinv *Glyph glyphPtrWF
 //@ typeinv peekReader peekReaderWF
 
 //@ sweep C01 read.go t1decode.go peekreader.go
+//@ sweep C10 write.go t1encode.go hex.go eexec.go
 
 //@ func peek
 //@ requires r != nil && 0 <= n && n <= 65536
@@ -41,6 +44,7 @@ func peekReaderWF(r *peekReader) bool {
 
 //@ func Read
 //@ requires r != nil
+//@ ensures [C10.read.writable] result1 == nil ==> result0 != nil && fontWF(result0)
 //@ loop 9 invariant ctx != nil && glyphs != nil && seacsIn(ctx, glyphs)
 //@ loop 10 invariant ctx != nil && glyphs != nil && seacsIn(ctx, glyphs)
 //@ loop 11 invariant ctx != nil && glyphs != nil && g != nil
@@ -209,3 +213,81 @@ func specEE(r0 uint16, p []byte, i int) uint16 {
 //@ safety C10
 //@ requires w != nil
 //@ ensures result1 == nil ==> result0 != nil && eexecWriterWF(result0)
+
+// ---------------------------------------------------------------------
+// C13: a failed write to the underlying writer is never swallowed
+// (wfault() is ghost state: some Write on an underlying io.Writer has failed)
+
+func hexWriterWF(w *hexWriter) bool {
+	return w.w != nil
+}
+
+func countingWriterWF(w *countingWriter) bool {
+	return w.w != nil
+}
+
+//@ typeinv hexWriter hexWriterWF
+//@ typeinv countingWriter countingWriterWF
+
+//@ func (*hexWriter).flush
+//@ safety C10
+//@ ensures [C13.hex.flush] !old(wfault()) && result == nil ==> !wfault()
+//@ func (*hexWriter).Write
+//@ safety C10
+//@ ensures [C13.hex.write] !old(wfault()) && result1 == nil ==> !wfault()
+//@ ensures [C08.hex.count] result1 == nil ==> result0 == len(p)
+//@ loop 1 invariant [C13.hex] !old(wfault()) ==> !wfault()
+//@ func (*hexWriter).Close
+//@ safety C10
+//@ ensures [C13.hex.close] !old(wfault()) && result == nil ==> !wfault()
+
+//@ func (*eexecWriter).flush
+//@ ensures [C13.eexec.flush] !old(wfault()) && result == nil ==> !wfault()
+//@ loop 1 invariant [C13.eexec] wfault() == old(wfault())
+//@ func (*eexecWriter).Write
+//@ ensures [C13.eexec.write] !old(wfault()) && result1 == nil ==> !wfault()
+//@ loop 1 invariant [C13.eexec] !old(wfault()) ==> !wfault()
+//@ func (*eexecWriter).Close
+//@ ensures [C13.eexec.close] !old(wfault()) && result == nil ==> !wfault()
+//@ func newEExecWriter
+//@ ensures [C13.eexec.new] !old(wfault()) && result1 == nil ==> !wfault()
+
+//@ func (*countingWriter).Write
+//@ safety C10
+//@ ensures [C13.count.write] !old(wfault()) && err == nil ==> !wfault()
+//@ ensures [C08.count] w.n == old(w.n) + n
+
+//@ func (*Font).Write
+//@ safety C10
+//@ requires f != nil && w != nil && (opt == nil || (0 <= opt.Format && opt.Format <= FormatNoEExec))
+//@ ensures [C13.font.write] !old(wfault()) && result == nil ==> !wfault()
+
+//@ func (*Font).WritePDF
+//@ safety C10
+//@ requires f != nil && w != nil
+//@ ensures [C13.font.writepdf] !old(wfault()) && result2 == nil ==> !wfault()
+
+// ---------------------------------------------------------------------
+// C10: the writable domain.  fontWF is what the writer needs from a font; the
+// reader establishes it (type1.Read ensures).
+
+func fontWF(f *Font) bool {
+	return f.FontInfo != nil && f.Private != nil
+}
+
+//@ typeinv Font fontWF
+
+//@ func (*Glyph).encodeCharString
+//@ requires g != nil
+//@ loop 1 invariant g != nil && 0 <= i && i <= len(g.HStem) + 1
+//@ loop 2 invariant g != nil && 0 <= i && i <= len(g.VStem) + 1
+//@ loop 3 invariant g != nil
+
+//@ func (*Font).encodeCharstrings
+//@ loop 1 invariant f != nil && charStrings != nil
+//@ loop 2 invariant f != nil && charStrings != nil && len(iv) == 4 && ref(iv) != 0
+//@ loop 3 invariant f != nil && charStrings != nil && len(iv) == 4 && ref(iv) != 0 && len(obf) >= 4
+//@ loop 4 invariant f != nil && charStrings != nil && len(iv) == 4 && ref(iv) != 0 && 0 <= pos
+
+//@ func (*Font).makeTemplateData
+//@ requires opt != nil
